@@ -212,3 +212,21 @@ M("cb_nfev_stale", "callback state carries nfev of the previous iteration", ["C0
 M("cb_false_resets_memo", "a callback (even returning False) changes the run: extra evaluation after the callback", ["C07"],
   ("lbfgsb/main.py", "                    istate.task_str = \"STOP: USER CALLBACK\"\n                    istate.is_success = True\n",
    "                    istate.task_str = \"STOP: USER CALLBACK\"\n                    istate.is_success = True\n                else:\n                    sf.update_x(x + 0.0)\n                    f0 = sf.fun(x)\n"))
+
+# --- fault propagation ---------------------------------------------------------------
+M("ex_typeerror_pinned", "pinned defect: except TypeError around ftarget()/gtol() (reverse of fix 51d428d)", ["C20"],
+  ("lbfgsb/main.py", "    _gtol: float = gtol() if callable(gtol) else gtol\n", "    try:\n        _gtol: float = gtol()  # type: ignore\n    except TypeError:\n        _gtol = gtol  # type: ignore\n"))
+M("ex_broad_except_ls", "broad except around the line search turns failures into a failed search", ["C20"],
+  ("lbfgsb/main.py", "        steplength = line_search(\n", "        try:\n          steplength = _ls_guard(\n"),
+  ("lbfgsb/main.py", "            iprint,\n            logger,\n        )\n        if steplength is None:", "            iprint,\n            logger,\n          )\n        except Exception:\n            steplength = None\n        if steplength is None:"),
+  ("lbfgsb/main.py", "def initialize_X_and_G(", "def _ls_guard(*a, **k):\n    return line_search(*a, **k)\n\n\ndef initialize_X_and_G("))
+M("ex_wrap_objective", "objective failures re-raised as ValueError(...) from e", ["C20"],
+  ("lbfgsb/scalar_function.py", "            fx = fun(np.copy(x), *args)\n", "            try:\n                fx = fun(np.copy(x), *args)\n            except Exception as e:\n                raise ValueError(\"objective function failed\") from e\n"))
+M("ex_callback_swallow", "exceptions of the user callback are logged and ignored", ["C20"],
+  ("lbfgsb/main.py", "            if callback is not None and not istate.is_success:\n                if callback(", "            if callback is not None and not istate.is_success:\n                if _safe_cb(callback)("),
+  ("lbfgsb/main.py", "def initialize_X_and_G(", "def _safe_cb(cb):\n    def w(*a):\n        try:\n            return cb(*a)\n        except Exception:\n            return False\n    return w\n\n\ndef initialize_X_and_G("))
+M("ex_indexerror_cauchy_wide", "the IndexError handler of the Cauchy loop also covers the update of c (swallows user-visible errors)", ["C20"],
+  ("lbfgsb/scalar_function.py", "            fx = fun(np.copy(x), *args)\n", "            try:\n                fx = fun(np.copy(x), *args)\n            except IndexError:\n                fx = np.inf\n"))
+M("ex_state_left_behind", "a failing objective leaves a module-level flag that changes later runs", ["C20", "C14"],
+  ("lbfgsb/scalar_function.py", "            fx = fun(np.copy(x), *args)\n", "            global _FAILED\n            try:\n                fx = fun(np.copy(x), *args)\n            except Exception:\n                _FAILED = True\n                raise\n            if _FAILED:\n                fx = fx * (1 + 1e-12)\n"),
+  ("lbfgsb/scalar_function.py", "FD_METHODS = (\"2-point\", \"3-point\", \"cs\")\n", "FD_METHODS = (\"2-point\", \"3-point\", \"cs\")\n_FAILED = False\n"))
